@@ -36,3 +36,16 @@ package core_domain
 //@ ensures forall s string :: {s in projectMethods} (s in projectMethods) <==> ((s in old(projectMethods)) || DeclIn(*d, len((*d).Functions), s))
 //@ loop 1 invariant forall s string :: {DeclIn(*d, #i, s)} {s in projectMethods} (s in projectMethods) <==> ((s in old(projectMethods)) || DeclIn(*d, #i, s))
 //@ loop 1 invariant projectMethods != nil
+
+//@ spec rec CntNamed(cs []CodeCall, n int) int := n <= 0 ? 0 : CntNamed(cs, n - 1) + (cs[n - 1].NodeName != "" ? 1 : 0)
+
+// the callee names of a method: one entry per recorded call with a receiver, in call order
+//@ func CodeFunction.GetAllCallString
+//@ requires m != nil
+//@ ensures len(result) == CntNamed((*m).FunctionCalls, len((*m).FunctionCalls))
+//@ ensures forall i int :: {(*m).FunctionCalls[i]} 0 <= i && i < len((*m).FunctionCalls) && (*m).FunctionCalls[i].NodeName != "" ==>
+//@    result[CntNamed((*m).FunctionCalls, i)] == CallFull((*m).FunctionCalls[i])
+//@ loop 1 invariant len(calls) == CntNamed((*m).FunctionCalls, #i)
+//@ loop 1 invariant forall i int :: {(*m).FunctionCalls[i]} 0 <= i && i < #i && (*m).FunctionCalls[i].NodeName != "" ==>
+//@    CntNamed((*m).FunctionCalls, i) < len(calls) && CntNamed((*m).FunctionCalls, i) >= 0 && calls[CntNamed((*m).FunctionCalls, i)] == CallFull((*m).FunctionCalls[i])
+//@ loop 1 invariant CntNamed((*m).FunctionCalls, #i) >= 0
